@@ -1,5 +1,6 @@
 /- Driver for the encoder model (properties C12, C13): JSON lines in, JSON lines out. -/
 import TFVerif.Model.Encoder
+import TFVerif.Model.EncoderLM
 import TFVerif.Model.Lazy
 import TFVerif.Driver.Json
 
@@ -85,20 +86,35 @@ def parseFeat (j : Json) : Except String (Feat F) := do
   | "emb" => pure (.emb (← natList (← fld j "offset")) (← fMat (← fld j "values")))
   | t => err s!"feat {t}"
 
+/-- the exported parameters: a built-in class, or the dict entries of a `LinearModelEncoder` with stub models -/
+inductive WSpec where
+  | builtin (w : Weights F)
+  | lm (cols : List (LMCol F))
+
+def parseLMCol (j : Json) : Except String (LMCol F) := do
+  pure { name := ← getStr j "name", model := { a := ← fMat (← fld j "a"), c := ← floatList (← fld j "c") },
+         weight := ← fMat (← fld j "weight"), bias := ← floatList (← fld j "bias") }
+
 structure EncSpec where
   st : Stype
   na : Option NA
   stats : List (ColStat F)
   ch : Nat
-  w : Weights F
+  w : WSpec
   post : Post F
 
 def parseEnc (j : Json) : Except String EncSpec := do
+  let wj ← fld j "weights"
+  let w ← if (← getStr wj "cls") == "linmodel" then do pure (WSpec.lm (← asList parseLMCol (← fld wj "cols")))
+          else do pure (WSpec.builtin (← parseWeights wj))
   pure { st := ← parseStype (← getStr j "stype"), na := ← parseNA ((j.getObjVal? "na").toOption.getD .null),
          stats := ← asList parseStat (← fld j "stats"), ch := ← getNat j "ch",
-         w := ← parseWeights (← fld j "weights"), post := ← parsePost (← fld j "post") }
+         w := w, post := ← parsePost (← fld j "post") }
 
-def EncSpec.build (e : EncSpec) : Option (Encoder F) := initModules SF e.st e.na e.stats e.ch e.w e.post
+def EncSpec.build (e : EncSpec) : Option (AnyEncoder F) :=
+  match e.w with
+  | .builtin w => (initModules SF e.st e.na e.stats e.ch w e.post).map .builtin
+  | .lm cols => (lmInit SF e.st e.na e.stats e.ch cols e.post).map .linearModel
 
 def jFill : Option (Fill F) → Json
   | none => .null
@@ -109,6 +125,8 @@ def jFill : Option (Fill F) → Json
 def jNorm (n : Norm F) : List (String × Json) := [("mean", jFloats n.mean), ("std", jFloats n.std)]
 
 /-- the buffers `init_modules` registers, to be compared with the real `state_dict` -/
+def jBuffersLM (e : LMEncoder F) : Json := Json.mkObj [("fill_values", jFill e.fill)]
+
 def jBuffers (e : Encoder F) : Json :=
   let ps : List (String × Json) := match e.params with
     | .linear n .. => jNorm n | .stack n => jNorm n | .periodic n .. => jNorm n | .excel n .. => jNorm n
@@ -169,7 +187,15 @@ def handle (j : Json) : Except String Json := do
     let feat ← parseFeat (← fld j "feat")
     match spec.build with
     | none => pure (Json.mkObj [("construct", raisesJ)])
-    | some e =>
+    | some (.linearModel e) =>
+      -- `names` = the frame's column names of this stype (the class requires them)
+      let rows ← getNat j "rows"
+      let cols ← getNat j "cols"
+      let out := lmForward SF e rows cols (← strList (← fld j "colNames")) feat
+      pure (Json.mkObj [("construct", "ok"), ("buffers", jBuffersLM e),
+                        ("out", match out with | some o => jOut o | none => raisesJ),
+                        ("mid", Json.null), ("cells", Json.null)])
+    | some (.builtin e) =>
       let rows ← getNat j "rows"
       let cols ← getNat j "cols"
       let out := forward SF e rows cols (← getNat j "names") feat
@@ -185,7 +211,7 @@ def handle (j : Json) : Except String Json := do
     let groups ← getArr j "groups"
     let mut tf : List (Group F) := []
     let mut names : List (Stype × List String) := []
-    let mut encs : List (Stype × Encoder F) := []
+    let mut encs : List (Stype × AnyEncoder F) := []
     for g in groups do
       let spec ← parseEnc (← fld g "enc")
       match spec.build with
@@ -195,7 +221,7 @@ def handle (j : Json) : Except String Json := do
                        feat := ← parseFeat (← fld g "feat") }]
         names := names ++ [(spec.st, ← strList (← fld g "names"))]
         encs := encs ++ [(spec.st, e)]
-    match wiseForward SF { colNames := names, encoders := encs } tf with
+    match wiseForwardG SF { colNames := names, encoders := encs } tf with
     | none => pure (Json.mkObj [("construct", "ok"), ("out", raisesJ)])
     | some (o, ns) => pure (Json.mkObj [("construct", "ok"), ("out", jOut o), ("names", jStrs ns)])
   | "accept" =>
@@ -204,7 +230,10 @@ def handle (j : Json) : Except String Json := do
     let st ← parseStype (← getStr j "stype")
     let na ← parseNA ((j.getObjVal? "na").toOption.getD .null)
     let cls := EncClass.all.getD c .linear
-    pure (Json.mkObj [("direct", naOk st na), ("wise", wiseOk cls st na), ("supported", (supported cls).contains st)])
+    -- `present` = the stype has columns in the data (default); the key-by-key validation of the constructor
+    let present := (j.getObjVal? "present").toOption != some (.bool false)
+    pure (Json.mkObj [("direct", naOk st na), ("wise", wiseOk cls st na), ("supported", (supported cls).contains st),
+                      ("wiseKey", wiseKeyOk cls st na present)])
   | "lazy" =>
     -- the Module attribute state machine: constructor arguments, then assignments; `initFails` = init_modules raises
     let args ← (← getArr j "ctor").mapM parseAssign
